@@ -324,6 +324,281 @@ fn txn_scripts() -> Vec<(&'static str, Vec<(usize, Vec<u8>, Exp)>)> {
     v
 }
 
+// ---------- C05: WATCH on connection A, the key is changed (or not) by connection B between WATCH and EXEC ----------
+// Every value type; for collections every KIND of change (tail-only, head-only, middle, element/score/field value, type change with
+// the same flat contents, delete, create, delete + recreate) and the controls (B does nothing / reads only / writes the same value /
+// changes and changes back).  The oracle does not look at the handler's WATCH machinery: connection B reads the key (TYPE + the full
+// contents) before and after its own commands; "the value differs" = type or contents (lists: as a sequence; sets / hashes / sorted
+// sets: as a set of members / field-value / member-score pairs) differ.  differs -> EXEC is nil and nothing is applied; otherwise EXEC
+// applies everything: one result per queued command and all effects visible.
+
+#[derive(Clone)]
+enum Chg {
+    Cmds(Vec<Vec<u8>>),
+    /// a command built from the item listed at a position of B's read (pos 0 = first, 1 = middle, 2 = last; stride 2 = pairs)
+    Listed { pos: u8, stride: usize, mk: fn(&[u8]) -> Vec<Vec<u8>> },
+}
+#[derive(Clone)]
+struct W2 { ty: &'static str, label: String, setup: Vec<Vec<u8>>, change: Chg, changed: bool }
+
+fn cs(cmds: &[&[&str]]) -> Vec<Vec<u8>> { cmds.iter().map(|w| c(w)).collect() }
+
+fn reply_items(reply: &[u8]) -> Vec<Vec<u8>> {
+    if reply.first() != Some(&b'*') { return vec![reply.to_vec()]; }
+    let hdr = match reply.windows(2).position(|w| w == b"\r\n") { Some(p) => p + 2, None => return vec![reply.to_vec()] };
+    let mut out = Vec::new(); let mut off = hdr;
+    while off < reply.len() { match reply_len(&reply[off..]) { Ok(Some(l)) => { out.push(reply[off..off + l].to_vec()); off += l; } _ => break } }
+    out
+}
+fn bulk_payload(raw: &[u8]) -> Vec<u8> {
+    match raw.windows(2).position(|w| w == b"\r\n") { Some(p) if raw.len() >= p + 4 => raw[p + 2..raw.len() - 2].to_vec(), _ => raw.to_vec() }
+}
+fn reader_for(ty: &[u8]) -> Vec<u8> {
+    match ty { b"+list\r\n" => c(&["LRANGE", "w", "0", "-1"]), b"+set\r\n" => c(&["SMEMBERS", "w"]), b"+hash\r\n" => c(&["HGETALL", "w"]), b"+zset\r\n" => c(&["ZRANGE", "w", "0", "-1", "WITHSCORES"]), _ => c(&["GET", "w"]) }
+}
+/// the value as the property means it: type + contents (unordered types: sorted units)
+fn canon(ty: &[u8], items: &[Vec<u8>]) -> Vec<Vec<u8>> {
+    let mut units: Vec<Vec<u8>> = match ty { b"+hash\r\n" | b"+zset\r\n" => items.chunks(2).map(|p| p.concat()).collect(), _ => items.to_vec() };
+    if matches!(ty, b"+set\r\n" | b"+hash\r\n" | b"+zset\r\n") { units.sort(); }
+    let mut out = vec![ty.to_vec()]; out.extend(units); out
+}
+fn relation(a: &[Vec<u8>], b: &[Vec<u8>]) -> &'static str {
+    if a == b { "identical" }
+    else if a.len() < b.len() && b[..a.len()] == a[..] { "the old contents are a strict PREFIX of the new (tail-only change)" }
+    else if b.len() < a.len() && a[..b.len()] == b[..] { "the new contents are a strict PREFIX of the old (tail-only change)" }
+    else if a.len() < b.len() && b[b.len() - a.len()..] == a[..] { "the old contents are a strict suffix of the new (head-only change)" }
+    else if b.len() < a.len() && a[a.len() - b.len()..] == b[..] { "the new contents are a strict suffix of the old (head-only change)" }
+    else if a.len() == b.len() { "same length, an element differs" } else { "different" }
+}
+
+fn w2_scenarios() -> Vec<W2> {
+    let mut v: Vec<W2> = Vec::new();
+    let mut add = |ty: &'static str, label: &str, setup: &[&[&str]], change: &[&[&str]], changed: bool| v.push(W2 { ty, label: label.to_string(), setup: cs(setup), change: Chg::Cmds(cs(change)), changed });
+    // strings
+    add("string", "APPEND (the old value is a prefix of the new)", &[&["SET", "w", "ab"]], &[&["APPEND", "w", "c"]], true);
+    add("string", "overwritten by a prefix of itself", &[&["SET", "w", "abc"]], &[&["SET", "w", "ab"]], true);
+    add("string", "SETRANGE in the middle", &[&["SET", "w", "abc"]], &[&["SETRANGE", "w", "1", "X"]], true);
+    add("string", "INCR", &[&["SET", "w", "5"]], &[&["INCR", "w"]], true);
+    add("string", "set to the empty string", &[&["SET", "w", "abc"]], &[&["SET", "w", ""]], true);
+    add("string", "empty string set to something", &[&["SET", "w", ""]], &[&["SET", "w", "a"]], true);
+    add("string", "DEL", &[&["SET", "w", "abc"]], &[&["DEL", "w"]], true);
+    add("string", "control: the same value written again", &[&["SET", "w", "abc"]], &[&["SET", "w", "abc"]], false);
+    add("string", "control: changed and changed back", &[&["SET", "w", "abc"]], &[&["SET", "w", "zzz"], &["SET", "w", "abc"]], false);
+    add("string", "control: only read", &[&["SET", "w", "abc"]], &[&["GET", "w"], &["STRLEN", "w"]], false);
+    add("string", "control: deleted and recreated with the same value", &[&["SET", "w", "abc"]], &[&["DEL", "w"], &["SET", "w", "abc"]], false);
+    add("string", "control: B does nothing", &[&["SET", "w", "abc"]], &[], false);
+    // lists
+    let l3: &[&[&str]] = &[&["RPUSH", "w", "a", "b", "c"]];
+    add("list", "RPUSH of one element (tail-only)", l3, &[&["RPUSH", "w", "d"]], true);
+    add("list", "RPUSH of several elements (tail-only)", l3, &[&["RPUSH", "w", "d", "e", "f"]], true);
+    add("list", "RPOP leaving two elements (tail-only)", l3, &[&["RPOP", "w"]], true);
+    add("list", "two RPOPs leaving one element (tail-only)", l3, &[&["RPOP", "w"], &["RPOP", "w"]], true);
+    add("list", "LTRIM to its first element (tail-only)", l3, &[&["LTRIM", "w", "0", "0"]], true);
+    add("list", "LPUSH (head-only)", l3, &[&["LPUSH", "w", "z"]], true);
+    add("list", "LPOP (head-only)", l3, &[&["LPOP", "w"]], true);
+    add("list", "LTRIM dropping the head", l3, &[&["LTRIM", "w", "1", "-1"]], true);
+    add("list", "LSET in the middle", l3, &[&["LSET", "w", "1", "X"]], true);
+    add("list", "LSET of the last element", l3, &[&["LSET", "w", "-1", "X"]], true);
+    add("list", "LINSERT in the middle", l3, &[&["LINSERT", "w", "BEFORE", "b", "X"]], true);
+    add("list", "LREM in the middle", l3, &[&["LREM", "w", "1", "b"]], true);
+    add("list", "first and last element swapped", l3, &[&["LSET", "w", "0", "c"], &["LSET", "w", "2", "a"]], true);
+    add("list", "emptied by LPOPs (key disappears)", l3, &[&["LPOP", "w"], &["LPOP", "w"], &["LPOP", "w"]], true);
+    add("list", "DEL", l3, &[&["DEL", "w"]], true);
+    add("list", "one-element list, RPUSH (tail-only)", &[&["RPUSH", "w", "a"]], &[&["RPUSH", "w", "b"]], true);
+    add("list", "list of equal elements, RPOP (tail-only)", &[&["RPUSH", "w", "a", "a", "a"]], &[&["RPOP", "w"]], true);
+    add("list", "list of equal elements, LPUSH of the same element", &[&["RPUSH", "w", "a", "a", "a"]], &[&["LPUSH", "w", "a"]], true);
+    add("list", "control: LSET writing the same element", l3, &[&["LSET", "w", "1", "b"]], false);
+    add("list", "control: RPUSH then RPOP", l3, &[&["RPUSH", "w", "d"], &["RPOP", "w"]], false);
+    add("list", "control: only read", l3, &[&["LRANGE", "w", "0", "-1"], &["LLEN", "w"]], false);
+    add("list", "control: deleted and recreated with the same elements", l3, &[&["DEL", "w"], &["RPUSH", "w", "a", "b", "c"]], false);
+    add("list", "control: B does nothing", l3, &[], false);
+    // sets
+    let s3: &[&[&str]] = &[&["SADD", "w", "a", "b", "c"]];
+    add("set", "SPOP", s3, &[&["SPOP", "w"]], true);
+    add("set", "all members removed", s3, &[&["SREM", "w", "a", "b", "c"]], true);
+    add("set", "DEL", s3, &[&["DEL", "w"]], true);
+    add("set", "control: SADD of an existing member", s3, &[&["SADD", "w", "b"]], false);
+    add("set", "control: only read", s3, &[&["SMEMBERS", "w"], &["SCARD", "w"], &["SISMEMBER", "w", "a"]], false);
+    add("set", "control: one-member set deleted and recreated", &[&["SADD", "w", "a"]], &[&["DEL", "w"], &["SADD", "w", "a"]], false);
+    add("set", "control: B does nothing", s3, &[], false);
+    // hashes
+    let h3: &[&[&str]] = &[&["HSET", "w", "f1", "v1", "f2", "v2", "f3", "v3"]];
+    add("hash", "HINCRBY", &[&["HSET", "w", "cnt", "1", "f", "v"]], &[&["HINCRBY", "w", "cnt", "1"]], true);
+    add("hash", "a field value extended (old value is a prefix of the new)", h3, &[&["HSET", "w", "f2", "v2x"]], true);
+    add("hash", "all fields removed", h3, &[&["HDEL", "w", "f1", "f2", "f3"]], true);
+    add("hash", "DEL", h3, &[&["DEL", "w"]], true);
+    add("hash", "control: HSET writing the same value", h3, &[&["HSET", "w", "f2", "v2"]], false);
+    add("hash", "control: only read", h3, &[&["HGETALL", "w"], &["HLEN", "w"], &["HGET", "w", "f1"]], false);
+    add("hash", "control: one-field hash deleted and recreated", &[&["HSET", "w", "f", "v"]], &[&["DEL", "w"], &["HSET", "w", "f", "v"]], false);
+    add("hash", "control: B does nothing", h3, &[], false);
+    // sorted sets
+    let z3: &[&[&str]] = &[&["ZADD", "w", "1", "a", "2", "b", "3", "c"]];
+    add("zset", "ZADD of a new highest member (tail-only)", z3, &[&["ZADD", "w", "9", "z"]], true);
+    add("zset", "ZADD of two new highest members (tail-only)", z3, &[&["ZADD", "w", "8", "y", "9", "z"]], true);
+    add("zset", "ZREM of the highest member (tail-only)", z3, &[&["ZREM", "w", "c"]], true);
+    add("zset", "ZPOPMAX (tail-only)", z3, &[&["ZPOPMAX", "w"]], true);
+    add("zset", "ZADD of a new lowest member (head-only)", z3, &[&["ZADD", "w", "0", "0a"]], true);
+    add("zset", "ZREM of the lowest member (head-only)", z3, &[&["ZREM", "w", "a"]], true);
+    add("zset", "ZPOPMIN (head-only)", z3, &[&["ZPOPMIN", "w"]], true);
+    add("zset", "ZADD of a new member in the middle", z3, &[&["ZADD", "w", "2.5", "m"]], true);
+    add("zset", "score change in the middle, same order", z3, &[&["ZADD", "w", "2.5", "b"]], true);
+    add("zset", "score change of the highest member (only the last reply element changes)", z3, &[&["ZINCRBY", "w", "1", "c"]], true);
+    add("zset", "score change that reorders", z3, &[&["ZADD", "w", "10", "a"]], true);
+    add("zset", "ZREM in the middle", z3, &[&["ZREM", "w", "b"]], true);
+    add("zset", "DEL", z3, &[&["DEL", "w"]], true);
+    add("zset", "one-member sorted set, ZADD of a higher member (tail-only)", &[&["ZADD", "w", "1", "a"]], &[&["ZADD", "w", "2", "b"]], true);
+    add("zset", "control: ZADD with the same score", z3, &[&["ZADD", "w", "2", "b"]], false);
+    add("zset", "control: only read", z3, &[&["ZRANGE", "w", "0", "-1", "WITHSCORES"], &["ZCARD", "w"], &["ZSCORE", "w", "a"]], false);
+    add("zset", "control: deleted and recreated with the same members and scores", z3, &[&["DEL", "w"], &["ZADD", "w", "3", "c", "1", "a", "2", "b"]], false);
+    add("zset", "control: B does nothing", z3, &[], false);
+    // type changes: every pair, with the same flat contents where the types allow it (list [a,1] / hash {a:1} / sorted set {a:1})
+    let makers: [(&'static str, &[&str]); 5] = [("string", &["SET", "w", "a"]), ("list", &["RPUSH", "w", "a", "1"]), ("set", &["SADD", "w", "a"]), ("hash", &["HSET", "w", "a", "1"]), ("zset", &["ZADD", "w", "1", "a"])];
+    for (from, mk_from) in makers.iter() { for (to, mk_to) in makers.iter() { if from != to {
+        add(from, &format!("type change: {} -> {} (DEL + recreate as the other type)", from, to), &[mk_from], &[&["DEL", "w"], mk_to], true);
+    } } }
+    add("list", "type change: one-element list [a] -> one-member set {a}", &[&["RPUSH", "w", "a"]], &[&["DEL", "w"], &["SADD", "w", "a"]], true);
+    add("set", "type change: one-member set {a} -> one-element list [a]", &[&["SADD", "w", "a"]], &[&["DEL", "w"], &["RPUSH", "w", "a"]], true);
+    // absent key
+    for (to, mk_to) in makers.iter() { add("none", &format!("absent key created as a {}", to), &[], &[mk_to], true); }
+    add("none", "control: absent key, DEL of it", &[], &[&["DEL", "w"]], false);
+    add("none", "control: absent key, another key written", &[], &[&["SET", "other", "1"], &["RPUSH", "otherlist", "1"]], false);
+    add("none", "control: absent key created and deleted again", &[], &[&["RPUSH", "w", "a"], &["DEL", "w"]], false);
+    // changes addressed through what B reads: remove / rewrite the member or field LISTED first / in the middle / last
+    fn srem(m: &[u8]) -> Vec<Vec<u8>> { vec![cmd(&[b"SREM", b"w", m])] }
+    fn hdel(m: &[u8]) -> Vec<Vec<u8>> { vec![cmd(&[b"HDEL", b"w", m])] }
+    fn hset(m: &[u8]) -> Vec<Vec<u8>> { vec![cmd(&[b"HSET", b"w", m, b"CHANGED"])] }
+    fn hset_back(m: &[u8]) -> Vec<Vec<u8>> { vec![cmd(&[b"HSET", b"w", m, b"CHANGED"]), cmd(&[b"HDEL", b"w", m]), cmd(&[b"HSET", b"w", m, b"v"])] }
+    for (pos, pn) in [(0u8, "first"), (1, "in the middle"), (2, "last")] {
+        v.push(W2 { ty: "set", label: format!("SREM of the member listed {} by SMEMBERS", pn), setup: cs(s3), change: Chg::Listed { pos, stride: 1, mk: srem }, changed: true });
+        v.push(W2 { ty: "set", label: format!("5-member set, SREM of the member listed {}", pn), setup: cs(&[&["SADD", "w", "m1", "m2", "m3", "m4", "m5"]]), change: Chg::Listed { pos, stride: 1, mk: srem }, changed: true });
+        v.push(W2 { ty: "hash", label: format!("HDEL of the field listed {} by HGETALL", pn), setup: cs(h3), change: Chg::Listed { pos, stride: 2, mk: hdel }, changed: true });
+        v.push(W2 { ty: "hash", label: format!("HSET (new value) of the field listed {} by HGETALL", pn), setup: cs(h3), change: Chg::Listed { pos, stride: 2, mk: hset }, changed: true });
+        v.push(W2 { ty: "hash", label: format!("control: field listed {} rewritten, removed and restored", pn), setup: cs(&[&["HSET", "w", "f1", "v", "f2", "v", "f3", "v"]]), change: Chg::Listed { pos, stride: 2, mk: hset_back }, changed: false });
+    }
+    v
+}
+
+struct W2Run { found: Option<Found>, before: Vec<Vec<u8>>, after: Vec<Vec<u8>>, skipped: bool }
+
+/// placement 0: the change happens between WATCH and MULTI; 1: between MULTI (+ one queued command) and EXEC.
+/// watch_mode 0: WATCH w; 1: WATCH a1 w z9 (w in the middle of several keys); 2: WATCH w issued twice; 3: WATCH z9, then WATCH w
+async fn run_w2(cfg: &Cfg, sc: &W2, placement: u8, watch_mode: u8) -> W2Run {
+    let state = ShardedActorState::with_shards(cfg.shards);
+    let mut conns = vec![start_on(cfg, state.clone()), start_on(cfg, state.clone())];
+    let mut hist: Vec<String> = Vec::new();
+    let mut out = W2Run { found: None, before: Vec::new(), after: Vec::new(), skipped: false };
+    let base = format!("{}; two connections (A, B) on one store; watched key 'w' ({}): {}; the change by B happens {}", cfg_text(cfg), sc.ty, sc.label, if placement == 0 { "between A's WATCH and A's MULTI" } else { "after A's MULTI and a queued command, before A's EXEC" });
+    macro_rules! send { ($ci:expr, $bytes:expr) => {{
+        let who = if $ci == 0 { "A" } else { "B" };
+        if conns[$ci].client.write_all($bytes).await.is_err() { out.skipped = true; return out; }
+        match conns[$ci].read_replies(1).await {
+            Ok(r) => { hist.push(format!("{}: {} -> {}", who, show($bytes), show(&r[0]))); r[0].clone() }
+            Err(e) => { out.found = Some(Found { input: format!("{}; history: {} ; then {} sends {}", base, hist.join(" ; "), who, show($bytes)), observed: e, required: "exactly one reply".into() }); return out; }
+        }
+    }}; }
+    macro_rules! expect { ($ci:expr, $bytes:expr, $want:expr, $why:expr) => {{
+        let got = send!($ci, $bytes);
+        let want: Exp = $want;
+        if !exp_ok(&want, &got) {
+            out.found = Some(Found { input: format!("{}; history: {}", base, hist.join(" ; ")), observed: format!("reply {} to {}", show(&got), show($bytes)), required: format!("{} ({})", exp_text(&want), $why) });
+            return out;
+        }
+    }}; }
+    for s in &sc.setup { let r = send!(1, s); if r.first() == Some(&b'-') { out.skipped = true; return out; } }
+    let ty0 = send!(1, &c(&["TYPE", "w"]));
+    let rd0 = send!(1, &reader_for(&ty0));
+    let items0 = reply_items(&rd0);
+    let ok = Exp::Exact(b"+OK\r\n"); let q = Exp::Exact(b"+QUEUED\r\n");
+    match watch_mode {
+        1 => { expect!(0, &c(&["WATCH", "a1", "w", "z9"]), ok.clone(), "WATCH"); }
+        2 => { expect!(0, &c(&["WATCH", "w"]), ok.clone(), "WATCH"); expect!(0, &c(&["WATCH", "w"]), ok.clone(), "WATCH"); }
+        3 => { expect!(0, &c(&["WATCH", "z9"]), ok.clone(), "WATCH"); expect!(0, &c(&["WATCH", "w"]), ok.clone(), "WATCH"); }
+        _ => { expect!(0, &c(&["WATCH", "w"]), ok.clone(), "WATCH"); }
+    }
+    if placement == 1 { expect!(0, &c(&["MULTI"]), ok.clone(), "MULTI"); expect!(0, &c(&["SET", "x", "1"]), q.clone(), "queued"); }
+    let change: Vec<Vec<u8>> = match &sc.change {
+        Chg::Cmds(v) => v.clone(),
+        Chg::Listed { pos, stride, mk } => {
+            let n = items0.len() / stride;
+            if n == 0 { out.skipped = true; return out; }
+            let idx = match pos { 0 => 0, 1 => n / 2, _ => n - 1 };
+            mk(&bulk_payload(&items0[idx * stride]))
+        }
+    };
+    for ch in &change { let r = send!(1, ch); if r.first() == Some(&b'-') { out.skipped = true; if std::env::var("VERIF_CONN_ALL").is_ok() { eprintln!("W2 SKIP (error reply) {} | {}", base, hist.join(" ; ")); } return out; } }
+    let ty1 = send!(1, &c(&["TYPE", "w"]));
+    let rd1 = send!(1, &reader_for(&ty1));
+    let items1 = reply_items(&rd1);
+    let differs = canon(&ty0, &items0) != canon(&ty1, &items1);
+    if differs != sc.changed && std::env::var("VERIF_CONN_ALL").is_ok() { eprintln!("W2 NOTE scenario says changed={} but B reads differs={} : {} | {}", sc.changed, differs, base, hist.join(" ; ")); }
+    out.before = items0.clone(); out.after = items1.clone();
+    let rel = if ty0 != ty1 { format!("type {} -> {}", show(&ty0), show(&ty1)) } else { relation(&items0, &items1).to_string() };
+    let base = format!("{}; as read by B: before {} {} / after {} {} [{}]", base, show(&ty0), show(&rd0), show(&ty1), show(&rd1), rel);
+    if placement == 0 { expect!(0, &c(&["MULTI"]), ok.clone(), "MULTI"); expect!(0, &c(&["SET", "x", "1"]), q.clone(), "queued"); }
+    expect!(0, &c(&["RPUSH", "y", "a"]), q.clone(), "queued");
+    expect!(0, &c(&["INCR", "n"]), q.clone(), "queued");
+    if differs {
+        expect!(0, &c(&["EXEC"]), Exp::Nil, "the value of the watched key at EXEC differs from its value at WATCH: EXEC returns nil");
+        expect!(1, &c(&["GET", "x"]), Exp::Exact(b"$-1\r\n"), "the aborted transaction applies nothing");
+        expect!(1, &c(&["LLEN", "y"]), Exp::Exact(b":0\r\n"), "the aborted transaction applies nothing");
+        expect!(0, &c(&["GET", "n"]), Exp::Exact(b"$-1\r\n"), "the aborted transaction applies nothing");
+    } else {
+        expect!(0, &c(&["EXEC"]), Exp::Exact(b"*3\r\n+OK\r\n:1\r\n:1\r\n"), "the watched key has the value it had at WATCH: EXEC applies everything, one result per queued command");
+        expect!(1, &c(&["GET", "x"]), Exp::Exact(b"$1\r\n1\r\n"), "the transaction was applied");
+        expect!(1, &c(&["LLEN", "y"]), Exp::Exact(b":1\r\n"), "the transaction was applied");
+        expect!(0, &c(&["GET", "n"]), Exp::Exact(b"$1\r\n1\r\n"), "the transaction was applied");
+    }
+    // the key itself is what B left
+    let ty2 = send!(0, &c(&["TYPE", "w"]));
+    let rd2 = send!(0, &reader_for(&ty2));
+    if canon(&ty2, &reply_items(&rd2)) != canon(&ty1, &items1) {
+        out.found = Some(Found { input: format!("{}; history: {}", base, hist.join(" ; ")), observed: format!("the watched key now reads {} {}", show(&ty2), show(&rd2)), required: "what connection B left (the transaction does not touch it)".into() });
+        return out;
+    }
+    // EXEC ends the watch either way: the next transaction applies
+    expect!(0, &c(&["MULTI"]), ok.clone(), "MULTI");
+    expect!(0, &c(&["SET", "x", "2"]), q.clone(), "queued");
+    expect!(0, &c(&["EXEC"]), Exp::Exact(b"*1\r\n+OK\r\n"), "EXEC ended the watch: the next transaction applies");
+    expect!(1, &c(&["GET", "x"]), Exp::Exact(b"$1\r\n2\r\n"), "applied");
+    for (ci, mut s) in conns.into_iter().enumerate() {
+        let _ = s.client.write_all(b"*1\r\n$4\r\nPING\r\n").await;
+        match s.read_replies(1).await { Ok(r) if r[0] == b"+PONG\r\n" => {} other => { out.found = Some(Found { input: format!("{}; history: {}; sentinel PING on connection {}", base, hist.join(" ; "), ci), observed: format!("{:?}", other.map(|r| show(&r[0]))), required: "+PONG (exactly one reply per command, nothing left over)".into() }); return out; } }
+        match s.finish().await { Ok(rest) if rest.is_empty() => {} Ok(rest) => { out.found = Some(Found { input: format!("{}; history: {}", base, hist.join(" ; ")), observed: format!("surplus output on connection {}: {}", ci, show(&rest)), required: "exactly one reply per command".into() }); return out; } Err(e) => { out.found = Some(Found { input: base.clone(), observed: e, required: "a clean end of the connection".into() }); return out; } }
+    }
+    out
+}
+
+async fn check_watch_two_conns(cfg: &Cfg, rng: &mut Rng) -> Option<Found> {
+    let scs = w2_scenarios();
+    for (i, sc) in scs.iter().enumerate() {
+        for placement in [0u8, 1] {
+            let wm = if placement == 0 { 0 } else { (i % 4) as u8 };
+            let r = run_w2(cfg, sc, placement, wm).await;
+            if r.found.is_some() { return r.found; }
+        }
+    }
+    // a NEW member / field whose position in the reply is decided by the hash table: candidates until at least one lands at the very end
+    // (old contents = strict prefix of the new) and one elsewhere
+    fn sadd(m: &[u8]) -> Vec<Vec<u8>> { vec![cmd(&[b"SADD", b"w", m])] }
+    fn hset_new(m: &[u8]) -> Vec<Vec<u8>> { vec![cmd(&[b"HSET", b"w", m, b"nv"])] }
+    let grow: Vec<(&'static str, Vec<Vec<u8>>, fn(&[u8]) -> Vec<Vec<u8>>)> = vec![
+        ("set", cs(&[&["SADD", "w", "a"]]), sadd), ("set", cs(&[&["SADD", "w", "a", "b", "c"]]), sadd),
+        ("hash", cs(&[&["HSET", "w", "f", "v"]]), hset_new), ("hash", cs(&[&["HSET", "w", "f1", "v1", "f2", "v2", "f3", "v3"]]), hset_new),
+    ];
+    for (ty, setup, mk) in grow {
+        let (mut tails, mut others) = (0, 0);
+        for k in 0..40u64 {
+            if tails >= 2 && others >= 1 && k >= 6 { break; }
+            let member = format!("new{}-{}", k, rng.below(1 << 20));
+            let sc = W2 { ty, label: format!("a NEW {} '{}' added by B", if ty == "set" { "member" } else { "field" }, member), setup: setup.clone(), change: Chg::Cmds(mk(member.as_bytes())), changed: true };
+            let r = run_w2(cfg, &sc, (k % 2) as u8, 0).await;
+            if r.found.is_some() { return r.found; }
+            if r.before.len() < r.after.len() && r.after[..r.before.len()] == r.before[..] { tails += 1; } else { others += 1; }
+        }
+    }
+    None
+}
+
 async fn check_conn_txn(cfg: &Cfg) -> Option<Found> {
     for (name, script) in txn_scripts() {
         let state = ShardedActorState::with_shards(cfg.shards);
@@ -357,8 +632,9 @@ pub fn search_txn(_pid: &str, _oid: &str, seed: u64) -> Option<Found> {
     let local = tokio::task::LocalSet::new();
     local.block_on(&rt, async move {
         for cfg in configs().iter().take(2) { if let Some(f) = check_conn_txn(cfg).await { return Some(f); } }
-        // pipelining / fragmentation of whole transactions on one connection: one reply per command inside and outside MULTI
         let mut rng = Rng::new(seed + 45);
+        for cfg in configs().iter().take(2) { if let Some(f) = check_watch_two_conns(cfg, &mut rng).await { return Some(f); } }
+        // pipelining / fragmentation of whole transactions on one connection: one reply per command inside and outside MULTI
         let sess: Vec<(String, Vec<Vec<u8>>)> = vec![
             ("transaction with errors, pipelined".into(), vec![c(&["SET", "a", "abc"]), c(&["MULTI"]), c(&["INCR", "a"]), c(&["GET", "a"]), c(&["RPUSH", "l", "1"]), c(&["EXEC"]), c(&["GET", "a"]), c(&["MULTI"]), c(&["SET", "a", "2"]), c(&["DISCARD"]), c(&["GET", "a"]), c(&["EXEC"]), c(&["MULTI"]), c(&["MULTI"]), c(&["WATCH", "a"]), c(&["EXEC"])]),
             ("WATCH then own write then transaction, pipelined".into(), vec![c(&["RPUSH", "l", "a"]), c(&["WATCH", "l", "s"]), c(&["RPUSH", "l", "b"]), c(&["MULTI"]), c(&["SET", "x", "1"]), c(&["GET", "x"]), c(&["EXEC"]), c(&["GET", "x"]), c(&["WATCH", "l"]), c(&["UNWATCH"]), c(&["MULTI"]), c(&["LLEN", "l"]), c(&["EXEC"])]),
